@@ -486,6 +486,10 @@ def check_crop_size(prog: Program, res: Result) -> None:
 
 
 def check(prog: Program, res: Result) -> None:
+    # the cached sample a dataset hands out is never written through (a second read of the same index must give the same
+    # targets): shared with C11-cache
+    from . import c11 as _c11
+    res.borrow(lambda p_, r_: _c11.check_cache(p_, r_, _c11.make_alias(p_)), "C18-cache", prog)
     from . import _edges
     _edges.check_edge_order(prog, res, "C18-edges")
     check_crop_size(prog, res)
